@@ -177,8 +177,20 @@ def check_child(rep, case, what, child, parents, before, D, ops, size, want_age,
     try:
         x = np.array([[0.7] * max(D, 1), [1.3] * max(D, 1)])
         with np.errstate(all="ignore"):
-            child.evaluate_equation_at(x)
-            str(child)
+            got = child.evaluate_equation_at(x)
+            text = str(child)
+            # the child must behave as its OWN stack dictates (no cached simplified stack / constants of the parent may
+            # survive the modification): compare with a freshly built equation carrying the same stack and constants
+            fresh = AGraph(use_simplification=False)
+            fresh.command_array = np.array(stack, dtype=int)
+            nfresh = fresh.get_number_local_optimization_params()
+            if nfresh == child.get_number_local_optimization_params():
+                fresh.set_local_optimization_params(list(child.constants))
+            want = fresh.evaluate_equation_at(x)
+            if nfresh != child.get_number_local_optimization_params() or str(fresh) != text or fresh.get_complexity() != child.get_complexity() \
+                    or not np.array_equal(np.asarray(got), np.asarray(want), equal_nan=True):
+                rep.violate(f"{what}: the child does not behave as its own stack dictates (stale cached state): prints {text!r}, a fresh "
+                            f"equation with the same stack prints {str(fresh)!r}", "C04:child-stale-cache", c)
             child.get_formatted_string("sympy")
             s = AGraph(use_simplification=True)
             s.command_array = np.array(stack, dtype=int)
